@@ -45,6 +45,14 @@ impl<'a, W: Write> Write for &'a mut W {
     { (**self).write_char(c) }
 }
 
+/// std: `impl fmt::Write for String` appends (part of A-fmtsink)
+impl Write for String {
+    open spec fn out(&self) -> BSeq { encode_utf8(self@) }
+    #[verifier::external_body]
+    fn write_str(&mut self, s: &str) -> (r: Result<(), core::fmt::Error>) { self.push_str(s); Ok(()) }
+    #[verifier::external_body]
+    fn write_char(&mut self, c: char) -> (r: Result<(), core::fmt::Error>) { self.push(c); Ok(()) }
+}
 /// dereferencing a Cow<str> gives the string it holds (std: Deref for Cow)
 pub axiom fn axiom_cow_str_all()
     ensures forall|c: &Cow<'_, str>| (#[trigger] cow_target(c))@ == c@;
@@ -101,6 +109,7 @@ pub trait Serializer: Sized {
     type Ok;
     type Error;
     type SerializeSeq;
+    type SerializeStruct;
     spec fn ok(&self) -> bool;
     #[verifier::external_body]
     fn serialize_str(self, value: &str) -> Result<Self::Ok, Self::Error> requires self.ok() { unimplemented!() }
@@ -114,6 +123,8 @@ pub trait Serializer: Sized {
     fn serialize_unit_variant(self, name: &'static str, variant_index: u32, variant: &'static str) -> Result<Self::Ok, Self::Error> requires self.ok() { unimplemented!() }
     #[verifier::external_body]
     fn serialize_seq(self, len: Option<usize>) -> Result<Self::SerializeSeq, Self::Error> requires self.ok() { unimplemented!() }
+    #[verifier::external_body]
+    fn serialize_struct(self, name: &'static str, len: usize) -> Result<Self::SerializeStruct, Self::Error> requires self.ok() { unimplemented!() }
 }
 /// Models of serde::ser::SerializeSeq / SerializeTuple / SerializeTupleVariant. A type may implement several of these
 /// traits, whose methods have the same names; Verus cannot attach `ensures` to such an implementation, so each trait
@@ -137,6 +148,16 @@ pub trait SerializeTuple: Sized {
     fn serialize_element<T: ?Sized + Serialize>(&mut self, value: &T) -> (r: Result<(), Self::Error>)
         requires old(self).tup_ok() ensures Self::tup_elem_post(*old(self), *final(self), r);
     fn end(self) -> (r: Result<Self::Ok, Self::Error>) requires self.tup_ok() ensures Self::tup_end_post(self, r);
+}
+pub trait SerializeStruct: Sized {
+    type Ok;
+    type Error;
+    spec fn st_ok(&self) -> bool;
+    spec fn st_field_post(pre: Self, post: Self, key: &'static str, r: Result<(), Self::Error>) -> bool;
+    spec fn st_end_post(pre: Self, r: Result<Self::Ok, Self::Error>) -> bool;
+    fn serialize_field<T: ?Sized + Serialize>(&mut self, key: &'static str, value: &T) -> (r: Result<(), Self::Error>)
+        requires old(self).st_ok() ensures Self::st_field_post(*old(self), *final(self), key, r);
+    fn end(self) -> (r: Result<Self::Ok, Self::Error>) requires self.st_ok() ensures Self::st_end_post(self, r);
 }
 pub trait SerializeTupleVariant: Sized {
     type Ok;
@@ -368,6 +389,11 @@ impl<'i> Indent<'i> {
     pub expand_empty_elements: bool,
 }
 //@end
+/// representation invariant of the indentation, and room for one more level (A-size: the indent never comes within one
+/// step of usize::MAX)
+pub open spec fn ind_ok(ind: Indent) -> bool {
+    ind.wf() && (ind.st() matches Some(i) ==> i.current_indent_len + i.indent_size <= usize::MAX)
+}
 /// `<name>`, `</name>`, and the empty element in its two spellings
 pub open spec fn tag_open(n: BSeq) -> BSeq { seq![0x3cu8] + n + seq![0x3eu8] }
 pub open spec fn tag_close(n: BSeq) -> BSeq { seq![0x3cu8, 0x2fu8] + n + seq![0x3eu8] }
@@ -561,6 +587,29 @@ impl<'w, 'i, W: Write> ContentSerializer<'w, 'i, W> {
     pub write_delimiter: bool,
 }
 //@end
+//@extract element::Struct | src/se/element.rs :: struct Struct | serves=C13,C19 features=serialize
+ pub struct Struct<'w, 'k, W: Write> {
+    pub ser: ElementSerializer<'w, 'k, W>,
+    /// Buffer to store serialized elements
+    // TODO: Customization point: allow direct writing of elements, but all
+    // attributes should be listed first. Fail, if attribute encountered after
+    // element. Use feature to configure
+    pub children: String,
+    /// Whether need to write indent after the last written field
+    pub write_indent: bool,
+}
+//@end
+//@extract text::TextSerializer | src/se/text.rs :: struct TextSerializer | serves=C13 features=serialize
+ pub struct TextSerializer<W: Write>(pub SimpleTypeSerializer<W>);
+//@end
+/// TextSerializer's methods are not under contract (model-level implementation: every method unspecified)
+impl<W: Write> Serializer for TextSerializer<W> {
+    type Ok = W;
+    type Error = SeError;
+    type SerializeSeq = ();
+    type SerializeStruct = ();
+    open spec fn ok(&self) -> bool { true }
+}
 //@extract element::Tuple | src/se/element.rs :: enum Tuple | serves=C19 features=serialize
  pub enum Tuple<'w, 'k, W: Write> {
     /// Serialize each tuple field as an element
@@ -595,6 +644,7 @@ impl<'w, W: Write> Serializer for SimpleTypeSerializer<&'w mut W> {
     type Ok = &'w mut W;
     type Error = SeError;
     type SerializeSeq = SimpleSeq<&'w mut W>;
+    type SerializeStruct = ();
     open spec fn ok(&self) -> bool { true }
 //@extract simple_type::SimpleTypeSerializer::serialize_str | src/se/simple_type.rs :: impl<W: Write> Serializer for SimpleTypeSerializer<W> :: fn serialize_str | serves=C13 features=serialize
     fn serialize_str(self, value: &str) -> (r: Result<Self::Ok, Self::Error>)
@@ -648,7 +698,8 @@ impl<'w, 'i, W: Write> Serializer for ContentSerializer<'w, 'i, W> {
     type Ok = WriteResult;
     type Error = SeError;
     type SerializeSeq = Seq<'w, 'i, W>;
-    closed spec fn ok(&self) -> bool { self.indent.wf() }
+    type SerializeStruct = ();
+    closed spec fn ok(&self) -> bool { ind_ok(self.indent) }
 //@extract content::ContentSerializer::serialize_str | src/se/content.rs :: impl<'w, 'i, W: Write> Serializer for ContentSerializer<'w, 'i, W> :: fn serialize_str | serves=C13,C19 features=serialize
     fn serialize_str(self, value: &str) -> (r: Result<Self::Ok, Self::Error>)
         ensures
@@ -730,7 +781,7 @@ impl<'w, 'i, W: Write> Serializer for ContentSerializer<'w, 'i, W> {
 impl<'w, 'i, W: Write> SerializeSeq for Seq<'w, 'i, W> {
     type Ok = WriteResult;
     type Error = SeError;
-    closed spec fn seq_ok(&self) -> bool { self.ser.indent.wf() }
+    closed spec fn seq_ok(&self) -> bool { ind_ok(self.ser.indent) }
     /// C19: the indent flag for the NEXT item is set exactly when this item was markup or nothing -- never after text
     closed spec fn seq_elem_post(pre: Self, post: Self, r: Result<(), SeError>) -> bool {
         &&& r is Ok ==> post.ser.write_indent == (post.last is Element || post.last is Nothing)
@@ -760,8 +811,9 @@ impl<'w, 'k, W: Write> Serializer for ElementSerializer<'w, 'k, W> {
     type Ok = WriteResult;
     type Error = SeError;
     type SerializeSeq = Self;
+    type SerializeStruct = Struct<'w, 'k, W>;
     /// the tag name was validated when the serializer was made (XmlName::try_from)
-    closed spec fn ok(&self) -> bool { self.ser.indent.wf() && is_xml_name(self.key.0@) }
+    closed spec fn ok(&self) -> bool { ind_ok(self.ser.indent) && is_xml_name(self.key.0@) }
 //@extract element::ElementSerializer::serialize_str | src/se/element.rs :: impl<'w, 'k, W: Write> Serializer for ElementSerializer<'w, 'k, W> :: fn serialize_str | serves=C13 features=serialize
     fn serialize_str(self, value: &str) -> (r: Result<Self::Ok, Self::Error>)
         ensures r matches Ok(x) ==> x is Element,
@@ -833,6 +885,39 @@ impl<'w, 'k, W: Write> Serializer for ElementSerializer<'w, 'k, W> {
                 ser.serialize_unit_variant(name, variant_index, variant)
             })
         }
+    }
+//@end
+//@extract element::ElementSerializer::serialize_struct | src/se/element.rs :: impl<'w, 'k, W: Write> Serializer for ElementSerializer<'w, 'k, W> :: fn serialize_struct | serves=C13,C19 features=serialize
+    fn serialize_struct(
+        self,
+        _name: &'static str,
+        _len: usize,
+    ) -> (r: Result<Self::SerializeStruct, Self::Error>)
+        ensures
+            // C13/C19: the indent (if the flag is set), then `<key` -- the tag stays open for the attributes; nothing is
+            // buffered yet; one level deeper
+            r matches Ok(st) ==> st.children@.len() == 0 && st.write_indent && st.ser.key == self.key
+                && st.ser.ser.level == self.ser.level && st.ser.ser.expand_empty_elements == self.ser.expand_empty_elements
+                && (*st.ser.ser.writer).out() == (*old(self.ser.writer)).out() + self.ser.pre() + seq![0x3cu8] + self.key.0.spec_bytes()
+                && *final(st.ser.ser.writer) == *final(self.ser.writer)
+                && st.ser.ser.indent.fut() == self.ser.indent.fut()
+                && (match self.ser.indent.st() {
+                    None => st.ser.ser.indent.st() is None,
+                    Some(i) => st.ser.ser.indent.st() matches Some(j) && j.current_indent_len == i.current_indent_len + i.indent_size
+                        && j.indent_char == i.indent_char && j.indent_size == i.indent_size,
+                }),
+    { let mut self__ = self;
+        proof { lemma_nl(); }
+        self__.ser.write_indent()?;
+        self__.ser.indent.increase();
+
+        self__.ser.writer.write_char('<')?;
+        self__.ser.writer.write_str(self__.key.0)?;
+        Ok(Struct {
+            ser: self__,
+            children: String::new(),
+            write_indent: true,
+        })
     }
 //@end
 //@extract element::ElementSerializer::serialize_seq | src/se/element.rs :: impl<'w, 'k, W: Write> Serializer for ElementSerializer<'w, 'k, W> :: fn serialize_seq | serves=C13 features=serialize
@@ -1032,6 +1117,7 @@ impl<'a, W: Write> Serializer for AtomicSerializer<&'a mut W> {
     type Ok = bool;
     type Error = SeError;
     type SerializeSeq = ();
+    type SerializeStruct = ();
     open spec fn ok(&self) -> bool { true }
 //@extract simple_type::AtomicSerializer::serialize_str | src/se/simple_type.rs :: impl<W: Write> Serializer for AtomicSerializer<W> :: fn serialize_str | serves=C13 features=serialize
     fn serialize_str(self, value: &str) -> (r: Result<Self::Ok, Self::Error>)
@@ -1101,7 +1187,7 @@ impl<'a, W: Write> Serializer for AtomicSerializer<&'a mut W> {
 impl<'w, 'k, W: Write> SerializeSeq for ElementSerializer<'w, 'k, W> {
     type Ok = WriteResult;
     type Error = SeError;
-    closed spec fn seq_ok(&self) -> bool { self.ser.indent.wf() && is_xml_name(self.key.0@) }
+    closed spec fn seq_ok(&self) -> bool { ind_ok(self.ser.indent) && is_xml_name(self.key.0@) }
     /// C19: each item is an element `<key>..</key>`: markup, so the next item is indented; C13: same validated name
     closed spec fn seq_elem_post(pre: Self, post: Self, r: Result<(), SeError>) -> bool {
         &&& r is Ok ==> post.ser.write_indent
@@ -1131,7 +1217,7 @@ impl<'w, 'k, W: Write> SerializeSeq for ElementSerializer<'w, 'k, W> {
 impl<'w, 'k, W: Write> SerializeTuple for ElementSerializer<'w, 'k, W> {
     type Ok = WriteResult;
     type Error = SeError;
-    closed spec fn tup_ok(&self) -> bool { self.ser.indent.wf() && is_xml_name(self.key.0@) }
+    closed spec fn tup_ok(&self) -> bool { ind_ok(self.ser.indent) && is_xml_name(self.key.0@) }
     closed spec fn tup_elem_post(pre: Self, post: Self, r: Result<(), SeError>) -> bool {
         &&& r is Ok ==> post.ser.write_indent
         &&& post.key == pre.key && post.ser.level == pre.ser.level && post.ser.expand_empty_elements == pre.ser.expand_empty_elements
@@ -1154,7 +1240,7 @@ impl<'w, 'k, W: Write> SerializeTuple for ElementSerializer<'w, 'k, W> {
 impl<'w, 'k, W: Write> SerializeTupleVariant for Tuple<'w, 'k, W> {
     type Ok = WriteResult;
     type Error = SeError;
-    closed spec fn tv_ok(&self) -> bool { self matches Tuple::Element(e) ==> e.ser.indent.wf() && is_xml_name(e.key.0@) }
+    closed spec fn tv_ok(&self) -> bool { self matches Tuple::Element(e) ==> ind_ok(e.ser.indent) && is_xml_name(e.key.0@) }
     closed spec fn tv_field_post(pre: Self, post: Self, r: Result<(), SeError>) -> bool {
         (pre is Element) == (post is Element)
     }
@@ -1183,6 +1269,189 @@ impl<'w, 'k, W: Write> SerializeTupleVariant for Tuple<'w, 'k, W> {
             // part of content when deserialize
             Self::Text(ser) => SerializeTuple::end(ser).map(|_w: &'w mut W| -> (x: WriteResult) ensures x is SensitiveText { WriteResult::SensitiveText }),
         }
+    }
+//@end
+}
+
+/// what Struct::end appends to close the tag that serialize_struct left open
+pub open spec fn struct_close<'w, 'k, W: Write>(s: Struct<'w, 'k, W>) -> BSeq {
+    let k = s.ser.key.0.spec_bytes();
+    if s.children@.len() == 0 {
+        if s.ser.ser.expand_empty_elements { seq![0x3eu8] + tag_close(k) } else { seq![0x2fu8, 0x3eu8] }
+    } else {
+        seq![0x3eu8] + encode_utf8(s.children@)
+            + (if s.write_indent { match s.ser.ser.indent.st() {
+                None => BSeq::empty(),
+                Some(i) => nl_indent(i.indent_char, (if i.current_indent_len >= i.indent_size { i.current_indent_len - i.indent_size } else { 0 }) as nat),
+            } } else { BSeq::empty() })
+            + tag_close(k)
+    }
+}
+// ---- structs: `<key attr="..">children</key>` -- attributes go straight to the writer, child elements are buffered ----
+impl<'w, 'k, W: Write> Struct<'w, 'k, W> {
+//@extract element::Struct::write_field | src/se/element.rs :: impl<'w, 'k, W: Write> Struct<'w, 'k, W> :: fn write_field | serves=C13 features=serialize
+//@rewrite key.strip_prefix('@') ==> crate::escape_::strshim2::strip_prefix_char(key, '@')
+    fn write_field<T>(&mut self, key: &str, value: &T) -> (r: Result<(), SeError>)
+    where
+        T: ?Sized + Serialize,
+        requires old(self).st_ok(),
+        ensures final(self).ser.key == old(self).ser.key, final(self).ser.ser.expand_empty_elements == old(self).ser.ser.expand_empty_elements,
+            final(self).ser.ser.level == old(self).ser.ser.level,
+            // C13: `@name` is an attribute only if `name` is a legal XML name
+            r is Ok && key.spec_bytes().len() > 0 && key.spec_bytes()[0] == 0x40 ==> exists|n: &str| #[trigger] is_xml_name(n@) && n.spec_bytes() == key.spec_bytes().subrange(1, key.spec_bytes().len() as int),
+    {
+        //TODO: Customization point: allow user to determine if field is attribute or not
+        if let Some(key) = crate::escape_::strshim2::strip_prefix_char(key, '@') {
+            let key = XmlName::try_from(key)?;
+            self.write_attribute(key, value)
+        } else {
+            self.write_element(key, value)
+        }
+    }
+//@end
+//@extract element::Struct::write_attribute | src/se/element.rs :: impl<'w, 'k, W: Write> Struct<'w, 'k, W> :: fn write_attribute | serves=C13 features=serialize
+    fn write_attribute<T>(&mut self, key: XmlName, value: &T) -> (r: Result<(), SeError>)
+    where
+        T: ?Sized + Serialize,
+        // attributes go to the writer (the tag is still open); the buffered children and the flags are not touched
+        ensures final(self).ser.key == old(self).ser.key, final(self).ser.ser.expand_empty_elements == old(self).ser.ser.expand_empty_elements,
+            final(self).ser.ser.level == old(self).ser.ser.level,
+            final(self).children@ == old(self).children@, final(self).write_indent == old(self).write_indent,
+            final(self).ser.ser.indent.st() == old(self).ser.ser.indent.st(),
+    {
+        //TODO: Customization point: each attribute on new line
+        self.ser.ser.writer.write_char(' ')?;
+        self.ser.ser.writer.write_str(key.0)?;
+        self.ser.ser.writer.write_char('=')?;
+
+        //TODO: Customization point: preferred quote style
+        self.ser.ser.writer.write_char('"')?;
+        value.serialize(SimpleTypeSerializer {
+            writer: &mut self.ser.ser.writer,
+            target: QuoteTarget::DoubleQAttr,
+            level: self.ser.ser.level,
+        })?;
+        self.ser.ser.writer.write_char('"')?;
+
+        Ok(())
+    }
+//@end
+//@extract element::Struct::write_element | src/se/element.rs :: impl<'w, 'k, W: Write> Struct<'w, 'k, W> :: fn write_element | serves=C13,C19 features=serialize
+    /// Writes `value` either as a text content, or as an element.
+    ///
+    /// If `key` has a magic value [`TEXT_KEY`], then `value` serialized as a
+    /// [simple type].
+    ///
+    /// If `key` has a magic value [`VALUE_KEY`], then `value` serialized as a
+    /// [content] without wrapping in tags, otherwise it is wrapped in
+    /// `<${key}>...</${key}>`.
+    ///
+    /// [simple type]: SimpleTypeSerializer
+    /// [content]: ContentSerializer
+    fn write_element<T>(&mut self, key: &str, value: &T) -> (r: Result<(), SeError>)
+    where
+        T: ?Sized + Serialize,
+        requires old(self).st_ok(),
+        ensures final(self).ser.key == old(self).ser.key, final(self).ser.ser.expand_empty_elements == old(self).ser.ser.expand_empty_elements,
+            final(self).ser.ser.level == old(self).ser.ser.level,
+            // child elements are BUFFERED: the writer -- whose tag is still open -- is not touched
+            (*final(self).ser.ser.writer).out() == (*old(self).ser.ser.writer).out(), *final(final(self).ser.ser.writer) == *final(old(self).ser.ser.writer),
+            // C19: after a `$text` field no indent; C13: any other key but `$value` is a tag name and must be a legal one
+            r is Ok && key@ == "$text"@ ==> !final(self).write_indent,
+            r is Ok && key@ != "$text"@ && key@ != "$value"@ ==> final(self).write_indent && is_xml_name(key@),
+    {
+        let ser = ContentSerializer {
+            writer: &mut self.children,
+            level: self.ser.ser.level,
+            indent: self.ser.ser.indent.borrow(),
+            // If previous field does not require indent, do not write it
+            write_indent: self.write_indent,
+            allow_primitive: true,
+            expand_empty_elements: self.ser.ser.expand_empty_elements,
+        };
+
+        if key == TEXT_KEY {
+            value.serialize(TextSerializer(ser.into_simple_type_serializer()?))?;
+            // Text was written so we don't need to indent next field
+            self.write_indent = false;
+        } else if key == VALUE_KEY {
+            // If element was written then we need to indent next field unless it is a text field
+            self.write_indent = value.serialize(ser)?.allow_indent();
+        } else {
+            value.serialize(ElementSerializer {
+                key: XmlName::try_from(key)?,
+                ser,
+            })?;
+            // Element was written so we need to indent next field unless it is a text field
+            self.write_indent = true;
+        }
+        Ok(())
+    }
+//@end
+}
+impl<'w, 'k, W: Write> SerializeStruct for Struct<'w, 'k, W> {
+    type Ok = WriteResult;
+    type Error = SeError;
+    closed spec fn st_ok(&self) -> bool { ind_ok(self.ser.ser.indent) && is_xml_name(self.ser.key.0@) }
+    /// C13: whatever fields are written, the tag that will be closed is the tag that was opened
+    closed spec fn st_field_post(pre: Self, post: Self, key: &'static str, r: Result<(), SeError>) -> bool {
+        post.ser.key == pre.ser.key && post.ser.ser.expand_empty_elements == pre.ser.ser.expand_empty_elements && post.ser.ser.level == pre.ser.ser.level
+    }
+    closed spec fn st_end_post(pre: Self, r: Result<WriteResult, SeError>) -> bool { true }
+//@extract element::Struct::serialize_field | src/se/element.rs :: impl<'w, 'k, W: Write> SerializeStruct for Struct<'w, 'k, W> :: fn serialize_field | serves=C13 features=serialize
+    fn serialize_field<T>(&mut self, key: &'static str, value: &T) -> Result<(), Self::Error>
+    where
+        T: ?Sized + Serialize,
+    {
+        self.write_field(key, value)
+    }
+//@end
+//@extract element::Struct::end | src/se/element.rs :: impl<'w, 'k, W: Write> SerializeStruct for Struct<'w, 'k, W> :: fn end | serves=C13,C19 features=serialize
+    fn end(self) -> (r: Result<Self::Ok, Self::Error>)
+        ensures
+            // C13: the tag opened by serialize_struct is closed, with the SAME name: `/>` (or `></key>`) when nothing was
+            // buffered, else `>` + the buffered children + (C19: the indent of the outer level, if the last child allows
+            // it) + `</key>`; classified as markup
+            r matches Ok(x) ==> x is Element && (*final(self.ser.ser.writer)).out() == (*old(self.ser.ser.writer)).out() + struct_close(self),
+    { let mut self__ = self;
+        proof { lemma_nl(); lemma_lits(); }
+        let ghost o0 = (*self__.ser.ser.writer).out();
+        let ghost k = self.ser.key.0.spec_bytes();
+        self__.ser.ser.indent.decrease();
+        let ghost ib = self__.ser.ser.indent.bytes();
+
+        if self__.children.is_empty() {
+            if self__.ser.ser.expand_empty_elements {
+                self__.ser.ser.writer.write_str("></")?;
+                self__.ser.ser.writer.write_str(self__.ser.key.0)?;
+                self__.ser.ser.writer.write_char('>')?;
+            } else {
+                self__.ser.ser.writer.write_str("/>")?;
+            }
+        } else {
+            self__.ser.ser.writer.write_char('>')?;
+            self__.ser.ser.writer.write_str(&self__.children)?;
+
+            if self__.write_indent {
+                self__.ser.ser.indent.write_indent(&mut self__.ser.ser.writer)?;
+            }
+
+            self__.ser.ser.writer.write_str("</")?;
+            self__.ser.ser.writer.write_str(self__.ser.key.0)?;
+            self__.ser.ser.writer.write_char('>')?;
+            proof {
+                let c = encode_utf8(self.children@);
+                let i2 = if self.write_indent { ib } else { BSeq::empty() };
+                assert(o0 + seq![0x3eu8] + c + i2 + seq![0x3cu8, 0x2fu8] + k + seq![0x3eu8] =~= o0 + (seq![0x3eu8] + c + i2 + tag_close(k)));
+                assert(o0 + seq![0x3eu8] + c + BSeq::empty() =~= o0 + seq![0x3eu8] + c);
+            }
+        }
+        proof {
+            if self.children@.len() == 0 {
+                assert(o0 + seq![0x3eu8, 0x3cu8, 0x2fu8] + k + seq![0x3eu8] =~= o0 + (seq![0x3eu8] + tag_close(k)));
+            }
+        }
+        Ok(WriteResult::Element)
     }
 //@end
 }
